@@ -2,6 +2,7 @@ package main
 
 import (
 	"fmt"
+	"os"
 	"sort"
 	"strings"
 	"sync"
@@ -307,6 +308,15 @@ func (m *Machine) haveModel() bool {
 	for i, n := range names {
 		sorts[i] = ps.varSorts[n]
 	}
+	if m.pcHard() && m.oneshot != nil {
+		_, vals := m.oneshot.OneShot(append([]*Term(nil), ps.pc...), names, sorts)
+		if vals == nil {
+			ps.noModel = true
+			return false
+		}
+		ps.model = vals
+		return true
+	}
 	r := m.solver.Check()
 	if r == Unknown && m.oneshot != nil && m.solver.Errors == 0 {
 		m.solver.Unknowns--
@@ -330,6 +340,15 @@ func (m *Machine) haveModel() bool {
 	}
 	ps.model = vals
 	return true
+}
+
+func (m *Machine) pcHard() bool {
+	for _, c := range m.ps.pc {
+		if termHard(c) {
+			return true
+		}
+	}
+	return false
 }
 
 func (m *Machine) modelTrue(t *Term) bool {
@@ -472,10 +491,13 @@ func (m *Machine) flushAsserts() {
 		// each assertion is decided on its own slice of the path condition (cache friendly)
 		r := Sat
 		if !p.bad.IsTrue() {
-			if m.haveModel() && m.modelTrue(p.bad) {
-				r = Sat
-			} else {
-				r, _ = m.query(p.bad)
+			r, _ = m.query(p.bad)
+			if r != Sat && m.haveModel() && m.modelTrue(p.bad) {
+				// the path model claims a violation the solver refutes: engine self-check
+				m.ex.noteInconclusive(fmt.Sprintf("ENGINE-SELFCHECK: model evaluation and solver disagree on assertion %s (solver: %s)", p.label, r))
+				if os.Getenv("GOSYM_DEBUG") != "" {
+					fmt.Fprintf(os.Stderr, "DISAGREE %s\nterm: %s\nmodel: %v\n", p.label, PrintTerm(p.bad, nil), ps.model)
+				}
 			}
 		}
 		switch r {
@@ -505,7 +527,13 @@ func (m *Machine) reportViolationAt(kind, label, msg string, extra *Term, where 
 		m.solver.Push()
 		m.solver.Assert(extra)
 	}
-	chk := m.solver.Check()
+	var chk Result
+	if m.pcHard() && m.oneshot != nil {
+		chk = Unknown
+		m.solver.Unknowns++
+	} else {
+		chk = m.solver.Check()
+	}
 	if chk == Unknown && m.oneshot != nil && m.solver.Errors == 0 {
 		m.solver.Unknowns--
 		m.solver.Retried++
@@ -753,7 +781,7 @@ func (m *Machine) finishPath(kind string) {
 		for i, n := range names {
 			sorts[i] = ps.varSorts[n]
 		}
-		if m.solver.Check() == Sat {
+		if !m.pcHard() && m.solver.Check() == Sat {
 			if vals, err := m.solver.Values(names, sorts); err == nil {
 				ex.natSamples = append(ex.natSamples, natSample{vals, append([]string(nil), ps.observes...), append([]Decision(nil), ps.decs...)})
 			}
@@ -761,7 +789,7 @@ func (m *Machine) finishPath(kind string) {
 	}
 	if kind == "done" && len(ex.samples) < 3 && len(ps.vars) > 0 {
 		// sample: model of a completed path
-		if m.solver.Check() == Sat {
+		if !m.pcHard() && m.solver.Check() == Sat {
 			names := ps.vars
 			if len(names) > 40 {
 				names = names[:40]
